@@ -1780,6 +1780,18 @@ impl DistributedTxCoordinator {
 
         let from_phase = tx.phase;
 
+        // Committing means the decision is COMMIT (taken by commit() or by recovery) and may
+        // already have reached participants: it can no longer be turned into an abort.
+        if from_phase == TxPhase::Committing {
+            tracing::warn!(
+                tx_id = tx_id,
+                "Abort refused: transaction is already committing"
+            );
+            return Err(ChainError::TransactionFailed(format!(
+                "transaction {tx_id} is committing and can no longer be aborted"
+            )));
+        }
+
         tracing::warn!(
             tx_id = tx_id,
             from_phase = ?from_phase,
@@ -1833,9 +1845,11 @@ impl DistributedTxCoordinator {
 
     pub fn cleanup_timeouts(&self) -> Vec<u64> {
         let mut pending = self.pending.write();
+        // A Committing transaction is decided (COMMIT): it is finished by complete_commit,
+        // never given up on by the timeout sweep.
         let timed_out: Vec<_> = pending
             .iter()
-            .filter(|(_, tx)| tx.is_timed_out())
+            .filter(|(_, tx)| tx.is_timed_out() && tx.phase != TxPhase::Committing)
             .map(|(id, _)| *id)
             .collect();
 
